@@ -364,6 +364,19 @@ theorem ctor_refines :
     obtain ⟨s', ps', h1, h2, _, inv'⟩ := inv.iadd (x :: xs)
     exact ⟨s', h1, ⟨ps', inv'⟩, by rw [inv'.chain.asList, h2]⟩
 
+/-- `c += c`: `__iadd__` reads its operand into a list before it opens the chain (fix C19-F7), so the
+    operand is the list the chain denotes at that moment, and the collection doubles like a list. -/
+theorem extend_self_refines :
+    ∀ (s : St) (h : Term) (xs : List Term), WF s h → asList s.g h = .ok xs →
+      (step h s (.extend xs)).2 = .unit ∧ WF (step h s (.extend xs)).1 h ∧
+        asList (step h s (.extend xs)).1.g h = .ok (xs ++ xs) := by
+  intro s h xs wf ha
+  obtain ⟨h1, h2, h3⟩ := coll_refines_partial s h xs (.extend xs) wf ha rfl
+  refine ⟨?_, h2, h3⟩
+  rcases h1 with h1 | ⟨h1, _⟩
+  · exact h1
+  · simp [specStep] at h1
+
 /-! ### The pinned `__setitem__` falsifies the full statements (known finding C19-K1) -/
 
 def exG1 : Graph := [(100, FIRST, 10), (100, REST, NIL)]
